@@ -835,6 +835,34 @@ func runC16(w *World, r *Report) {
 	}
 
 	shareRule(w, r, "C16.option-lists-are-copied", "an option list handed on is never appended to in place: what GetComposeOptions returns and what the agents append their own options to is a slice of its own, or the option list of one call ends up in storage another call reads", 1, "C09", "C09.append-alias")
+	r.Rule("C16.every-call-form-gets-the-run-context", "wrapRunnableCtx — what puts the graph's per-run context (option extraction, graph callbacks) in front of a compiled graph — replaces all four call forms of the runnable (Invoke, Stream, Collect, Transform): a form it forgets runs without initGraphCallbacks, so undesignated callbacks given to that entry point reach neither the graph nor any node", 1)
+	{
+		wr := w.Fn("compose", "runnablePacker.wrapRunnableCtx")
+		rpT := w.Named("compose", "runnablePacker")
+		written := map[string]bool{}
+		for _, fw := range fieldWrites(wr) {
+			if fw.owner != nil && fw.owner.Origin().Obj() == rpT.Obj() {
+				written[fw.field.Name()] = true
+			}
+		}
+		var missing []string
+		st := rpT.Underlying().(*types.Struct)
+		nf := 0
+		for i := 0; i < st.NumFields(); i++ {
+			if _, isFn := st.Field(i).Type().Underlying().(*types.Signature); !isFn {
+				continue
+			}
+			nf++
+			if !written[st.Field(i).Name()] {
+				missing = append(missing, st.Field(i).Name())
+			}
+		}
+		if nf < 4 {
+			undecidedf("C16.every-call-form-gets-the-run-context: runnablePacker has %d function fields", nf)
+		}
+		r.Check(len(missing) == 0, "C16.every-call-form-gets-the-run-context", "wrapRunnableCtx wraps every call form", wr.Pos(), fmt.Sprintf("%d function fields replaced", nf), "the call form(s) "+strings.Join(missing, ", ")+" keep the unwrapped function: a compiled graph called through that entry point (c = Collect) never runs initGraphCallbacks — callbacks given without designation fire for Invoke, Stream and Transform and for nothing under Collect, while designated callbacks and component options on the same call still work")
+	}
+
 	r.Rule("C16.concurrent-option-lists-clipped", "an option list handed to several inner calls that run at the same time (the retriever flows' concurrent Retrieve calls) is handed over without its spare capacity (opts[:len:len]) or as a list of the call's own: an inner component that appends a default option to its list must not write into the slot its siblings read (the ToolsNode does the same for tool calls, C17.parallel-protocol)", 1)
 	{
 		n := 0
